@@ -31,6 +31,7 @@ type DelayOptions struct {
 	EdgeInvs   []func(s *State, p int, a *Attempt) (key, what string)
 	FailedIsViolation bool
 	MaxViol    int
+	KeepStates bool // record every distinct system state in BFSResult.GraphStates
 }
 
 type dnode struct {
@@ -86,6 +87,9 @@ func (sys *System) DelayBounded(opt DelayOptions) *BFSResult {
 			return 0, false
 		}
 		seen[k] = true
+		if opt.KeepStates && !distinct[k.h] {
+			res.GraphStates = append(res.GraphStates, s)
+		}
 		distinct[k.h] = true
 		id := int32(len(res.parent))
 		res.parent = append(res.parent, parent)
